@@ -150,7 +150,22 @@ def e14(ctx: Ctx):
     eif = next((s for s in bt.body if isinstance(s, ast.If) and any(isinstance(c, ast.Attribute) and c.attr == "statement" for c in ast.walk(s))), None)
     if pif is None or eif is None:
         raise IdiomNotFound("shortcut conditions not recognised")
-    pf = _isinstance_facts(pif.test, {param: "self", f"{param}.exp": "exp", f"{param}.var": "var"})
+    names_ = {param: "self", f"{param}.exp": "exp", f"{param}.var": "var"}
+    # local aliases of the statement's parts (`rhs = statement.exp`)
+    for a_ in ast.walk(pv):
+        if isinstance(a_, ast.Assign) and len(a_.targets) == 1 and isinstance(a_.targets[0], ast.Name) and unparse(a_.value) in names_:
+            names_[a_.targets[0].id] = names_[unparse(a_.value)]
+    pf = _isinstance_facts(pif.test, names_)
+    # guard clauses in front of it: `if not isinstance(x, K): return` establishes isinstance(x, K)
+    for st_ in pv.body:
+        if st_ is pif or any(x is pif for x in ast.walk(st_)):
+            break
+        if isinstance(st_, ast.If) and not st_.orelse and st_.body and isinstance(st_.body[-1], (ast.Return, ast.Raise)) and isinstance(st_.test, ast.UnaryOp) and isinstance(st_.test.op, ast.Not):
+            pf |= _isinstance_facts(st_.test.operand, names_)
+    # enclosing ifs
+    for outer in ast.walk(pv):
+        if isinstance(outer, ast.If) and outer is not pif and any(x is pif for b_ in outer.body for x in ast.walk(b_)):
+            pf |= _isinstance_facts(outer.test, names_)
     ef = _isinstance_facts(eif.test, {"self": "self", "self._exp": "exp", "self.exp": "exp", "self._var": "var", "self.var": "var"})
     ef = ef | {("self", "BasicAssignment")}
     ok = pf == ef
@@ -164,7 +179,7 @@ def e14(ctx: Ctx):
     )
     # the shortcut passes the assignment target as the result variable
     sv = next(c for c in ast.walk(pif) if isinstance(c, ast.Call) and call_name(c) == "set_var")
-    okv = sv.args and unparse(sv.args[0]) == f"{param}.var" and unparse(sv.func.value) == f"{param}.exp"
+    okv = sv.args and names_.get(unparse(sv.args[0])) == "var" and names_.get(unparse(sv.func.value)) == "exp"
     ctx.ob("assignment-shortcut:target", bool(okv), "" if okv else f"set_var is called as `{unparse(sv)}`", file=VISITORS_REL, line=sv.lineno)
 
 
@@ -187,6 +202,11 @@ def p9(ctx: Ctx):
                         mono = (isinstance(v, ast.Constant) and v.value is True) or (
                             isinstance(v, ast.BoolOp) and isinstance(v.op, ast.Or) and any(is_self_attr(x, fl) for x in v.values)
                         )
+                        if not mono:
+                            # assigned only while the flag is still down: `if not self.flag: self.flag = <anything>`
+                            for g_ in ast.walk(fn):
+                                if isinstance(g_, ast.If) and any(x is s for b_ in g_.body for x in ast.walk(b_)) and isinstance(g_.test, ast.UnaryOp) and isinstance(g_.test.op, ast.Not) and is_self_attr(g_.test.operand, fl):
+                                    mono = True
                         if "data" in name:
                             from .pyast import ast_contains as _ac
 
